@@ -423,6 +423,32 @@ FUNCTIONS = [
 ]
 
 
+def am_chains(max_leaves: int, leaves: List[Any]) -> List[Any]:
+    """Every binary tree over {add, mul} with 3..max_leaves leaves drawn from `leaves`: the chained / regrouped forms
+    that the rules special-case (and that the all-trees family cannot reach within its node bound)."""
+    memo: Dict[int, List[Any]] = {1: list(leaves)}
+
+    def trees(n: int) -> List[Any]:
+        if n in memo:
+            return memo[n]
+        out = []
+        for k in range(1, n):
+            for l in trees(k):
+                for r in trees(n - k):
+                    out.append(("add", l, r))
+                    out.append(("mul", l, r))
+        memo[n] = out
+        return out
+
+    res: List[Any] = []
+    for n in range(3, max_leaves + 1):
+        res.extend(trees(n))
+    return [renumber(t) for t in res]
+
+
+AM_ONLY: set = set()  # quick tier: AM-chain skeletons are not run through the (grid-enumerating) factor-out rule
+
+
 def skeletons(prop: str, tier: str) -> Tuple[List[Any], Dict[str, Any]]:
     eq = prop == "C02"
     bounds: Dict[str, Any] = {}
@@ -436,6 +462,17 @@ def skeletons(prop: str, tier: str) -> Tuple[List[Any], Dict[str, Any]]:
         sks.extend(base)
         bounds["family_B"] = (f"{len(base)} non-equation example inputs of rules/*.test.json with <= {maxB} nodes, "
                               "literals made symbolic")
+        kx = ("mul", ("const", 0), ("var", "x"))
+        if tier == "quick":
+            am = am_chains(3, [("const", 0), ("var", "x"), ("var", "y"), kx]) + \
+                [t for t in am_chains(4, [("const", 0), kx]) if sk_size(t) > 9]
+        else:
+            am = am_chains(4, [("const", 0), ("var", "x"), ("var", "y"), kx, ("pow", ("var", "x"), ("const", 0))])
+        sks.extend(am)
+        if tier == "quick":
+            AM_ONLY.update(am)
+        bounds["family_AM"] = (f"{len(am)} trees over + and * with 3-4 leaves from const / x / y / k*x (/ x^n): chained and regrouped "
+                               "forms" + (" (4-leaf trees over const / k*x only; all rule-options except factor-out)" if tier == "quick" else ""))
         if tier != "quick":
             sub = [t for t in family_B_subst([b for b in base if sk_size(b) <= 13]) if sk_size(t) <= 17]
             sks.extend(sub)
@@ -461,9 +498,18 @@ def skeletons(prop: str, tier: str) -> Tuple[List[Any], Dict[str, Any]]:
         wrapped += [renumber(("eq", ("var", "w"), sk)) for sk in base if sk[0] != "eq" and sk_size(sk) <= 5]
         sks.extend(wrapped)
         bounds["family_B"] = f"{len(eqs)} equation examples + {len(wrapped)} other rule examples wrapped as 'input = w' / 'w = input'"
-        # moved-term contexts: c*(x+k)=w, -(x+k)=w, k-(x+c)=w, (x+k)/c=w, (x+k)^2=w
+        # moved-term contexts: c*(x+k)=w, -(x+k)=w, k-(x+c)=w, (x+k)/c=w, (x+k)^2=w, with one- and two-level sums inside
         inner = ("add", ("var", "x"), ("const", 0))
-        extra = [
+        nested: List[Any] = []
+        for inn in (inner, ("add", ("add", ("var", "y"), ("const", 0)), ("var", "z")), ("add", ("var", "y"), ("add", ("const", 0), ("var", "z"))),
+                    ("add", ("add", ("mul", ("const", 0), ("var", "y")), ("var", "x")), ("const", 1))):
+            for wrap in (lambda t: ("mul", ("const", 7), t), lambda t: ("mul", t, ("var", "v")), lambda t: ("neg", t),
+                         lambda t: ("sub", ("var", "v"), t), lambda t: ("sub", t, ("var", "v")), lambda t: ("div", t, ("const", 7)),
+                         lambda t: ("div", ("var", "v"), t), lambda t: ("pow", t, ("const", 7)), lambda t: ("sgn", t),
+                         lambda t: ("add", ("var", "v"), ("sub", ("var", "x"), t)), lambda t: ("add", t, ("var", "v"))):
+                nested.append(("eq", wrap(inn), ("var", "w")))
+                nested.append(("eq", ("var", "w"), wrap(inn)))
+        extra = nested + [
             ("eq", ("mul", ("const", 1), inner), ("var", "w")),
             ("eq", ("neg", inner), ("var", "w")),
             ("eq", ("sub", ("const", 1), inner), ("var", "w")),
@@ -510,7 +556,8 @@ def run(prop: str, tier: str) -> int:
     rnd.shuffle(sks)
     use_grid("quick" if tier == "quick" else "full")
     bounds["grid"] = grid_text()
-    items = [(prop, s, name) for s in sks for name, _ in RULES]
+    items = [(prop, s, name) for s in sks for name, _ in RULES
+             if not (s in AM_ONLY and name.startswith("DistributiveFactorOut"))]
     rnd.shuffle(items)
     items.sort(key=lambda it: -sk_size(it[1]))  # biggest first: better balance over the workers
     collect(rep, pmap(case_worker, items, budget_s=budget, chunk=6))
